@@ -867,8 +867,17 @@ func runStalePublish() (run collRun, ok bool, err error) {
 	}
 	okw := step(func() error { _, e := c.Add("k1", tok(2)); return e })
 	close(release)
-	if e := <-aDone; e != nil && err == nil {
-		err = e
+	if !okw {
+		cancel() // a writer stuck in bus.Send is released when the listener's context ends
+	}
+	select {
+	case e := <-aDone:
+		if e != nil && err == nil {
+			err = e
+		}
+	case <-time.After(5 * time.Second):
+		run.slow, run.converged, okw = true, false, false
+		cancel()
 	}
 	if okw && err == nil {
 		okw = step(func() error { _, e := c.Delete("k0"); return e })
